@@ -65,6 +65,10 @@ def model(ops, dl, icvn, lx):
 
     for op in ops:
         sid, els = parse_canon(op)
+        # a header ends what is still open at its own or an inner level (the trailers left out before it are generated there)
+        ends = {'ISA': ('ST', 'GS', 'ISA'), 'GS': ('ST', 'GS'), 'ST': ('ST',)}.get(sid, ())
+        while stack and stack[-1][0] in ends:
+            close(stack[-1][0])
         if sid == 'ISA':
             els = [list(e) for e in els]
             els[15] = [dl['sub']]
@@ -233,6 +237,11 @@ def strategy(tier):
         def trailer1(kind, count, ctl, last):
             # a trailer may only be omitted when an enclosing trailer or Close() follows (well-nested history)
             p = draw(st.integers(0, 5 if last else 3))
+            if not last and p == 0 and draw(st.integers(0, 2)) == 0:
+                # left out in front of the next header of the same level: that header ends the envelope
+                classes.add('omitted-trailer')
+                classes.add('omitted-before-sibling-header')
+                return []
             if p <= 2:
                 return ['%s*%d*%s~' % (kind, count, ctl)]
             if p == 3 and kind in prev and draw(st.integers(0, 2)) == 0:
